@@ -42,7 +42,7 @@ AB = "core/add_bin.cpp"
 MEMF = [("Memory::write", "core/Memory.cpp", "harness, bounded page list"), ("Memory::write8", "core/Memory.cpp", "harness, bounded page list"),
         ("Memory::read8", "core/Memory.cpp", "harness, bounded page list"), ("Memory::read_debug", "core/Memory.cpp", "harness, bounded page list"),
         ("Memory::in_use", "core/Memory.cpp", "harness, bounded page list"), ("MemoryPage::set_data", "core/MemoryPage.h", "harness"), ("MemoryPage::set_debug", "core/MemoryPage.h", "harness")]
-MEMB = "page list of at most 2 pages (two byte writes or one 16/32-bit write); addresses, data, markers symbolic; real 64 KiB pages"
+MEMB = "page list of at most 2 pages (one 16-bit write, possibly across a page boundary); addresses, data, markers symbolic; real 64 KiB pages"
 for _w, _n in ((1, "add_bin8"), (2, "add_bin16"), (4, "add_bin32")):
     GROUPS.append(Group(name="C05/%s" % _n, unity="C05/u_addbin.cpp", entry="h_addbin", functions=[(_n, AB, "harness (loop-free, full domain)")],
                         defines=["WIDTH=%d" % _w], checks=["--bounds-check", "--pointer-check", "--signed-overflow-check"], timeout=200))
@@ -50,12 +50,8 @@ GROUPS += [
     Group(name="C05/Memory.write1[bounded]", unity="C05/u_mem.cpp", entry="h_mem_write1", functions=MEMF, unwind=3,
           bounded="one write into a fresh image (1 page), every address/data/marker symbolic, real 64 KiB pages; page walk closed by unwinding assertions",
           extra_cbmc=["--arrays-uf-always"], timeout=900, mem_gb=28),
-    Group(name="C05/Memory.write2[bounded]", unity="C05/u_mem.cpp", entry="h_mem_write", functions=MEMF, unwind=4, bounded=MEMB,
-          extra_cbmc=["--arrays-uf-always"], timeout=1800, mem_gb=48, tier="thorough"),
     Group(name="C05/Memory.write16[bounded]", unity="C05/u_mem.cpp", entry="h_mem_w16", functions=[("Memory::write16", "core/Memory.cpp", "harness, bounded page list"), ("Memory::read16", "core/Memory.cpp", "harness, bounded page list")],
           unwind=4, bounded=MEMB, extra_cbmc=["--arrays-uf-always"], timeout=900, mem_gb=28),
-    Group(name="C05/Memory.write32[bounded]", unity="C05/u_mem.cpp", entry="h_mem_w32", functions=[("Memory::write32", "core/Memory.cpp", "harness, bounded page list"), ("Memory::read32", "core/Memory.cpp", "harness, bounded page list")],
-          unwind=6, bounded=MEMB, extra_cbmc=["--arrays-uf-always"], timeout=900, mem_gb=28, tier="thorough"),
 ]
 
 LEVEL = "proof"
